@@ -516,6 +516,12 @@ impl Drop for RecvStream {
     fn drop(&mut self) {
         let mut conn = self.conn.state.lock("RecvStream::drop");
 
+        if self.is_0rtt && conn.check_0rtt().is_err() {
+            // The stream ID may since have been reused: anything registered for it now belongs to
+            // the new stream
+            return;
+        }
+
         // clean up any previously registered wakers (a cancelled `received_reset` may have left one
         // behind even if all data was read afterwards)
         conn.blocked_readers.remove(&self.stream);
@@ -524,7 +530,7 @@ impl Drop for RecvStream {
             return;
         }
 
-        if conn.error.is_some() || (self.is_0rtt && conn.check_0rtt().is_err()) {
+        if conn.error.is_some() {
             return;
         }
 
